@@ -100,8 +100,9 @@ def run_config(cfg):
             continue
         nn, sz, p = rng.p_records[0]
         want_size = n if size is None else size
-        if nn != n or sz != want_size:
-            r.violation("C09/choice-arguments", {"n": nn, "size": sz, "want": (n, want_size)}, c)
+        if nn != n or sz != want_size or len(p) != n:
+            r.violation("C09/choice-arguments", {"n": nn, "size": sz, "len_p": len(p), "want": (n, want_size)}, c)
+            continue
         pref = ref.normalised(incr)
         # rounding-aware: exp() of a value known to relative eps carries |exponent|*eps
         fin = [v for v in incr if math.isfinite(v)]
